@@ -38,7 +38,10 @@ def readersStr (p : Probes) (c : Cache) : String :=
   let u := sep ";" (p.recs.map (fun r => optRecStr (c.getUnique l r)))
   let d := sep ";" (p.triples.map (fun t => optRecStr (c.getByDetails l t.1 t.2.1 t.2.2)))
   let a := sep ";" (p.triples.map (fun t => recsStr (c.getAllByDetails l t.1 t.2.1 t.2.2)))
-  s!"N={n} E={e} S={s} G={g} U={u} D={d} A={a}"
+  let ae := sep ";" (p.names.map (fun k => recsStr (c.asyncEntriesWithName l k)))
+  let as := sep ";" (p.names.map (fun k => recsStr (c.asyncEntriesWithServer l k)))
+  let aa := sep ";" (p.triples.map (fun t => recsStr (c.asyncAllByDetails l t.1 t.2.1 t.2.2)))
+  s!"N={n} E={e} S={s} G={g} U={u} D={d} A={a} AE={ae} AS={as} AA={aa}"
 
 structure React where
   phase : Nat
@@ -138,14 +141,13 @@ def step (p : Probes) (h : Host) (op : Op) : Host × String :=
       | _, _ =>
         ({ h with cache := out.cache }, s!"D u=~ c1=~ s1=~ c2=~ s2=~ n={if out.notify then 1 else 0} cb=~ {readersStr p out.cache}")
   | .purge now =>
-    match expire (Cache.ops l) h.cache now with
+    match deliverPurge l (fun ls => ls.mergeSort (fun a b => a ≤ b)) h.cache h.listeners now (fun _ => []) (fun _ => []) with
     | .error e => (h, s!"X err={e.name}")
-    | .ok (c', expired) =>
-      let us := expired.map (fun r => (r, some r))
-      let bs := browsersUpdate h c' now us
+    | .ok d =>
+      let bs := browsersUpdate h d.cache (Gen.Cache.purge_updates_now now) d.pairs
       let (bs', cbs) := browsersComplete bs
-      ({ h with cache := c', browsers := bs' },
-        s!"X e={recsStr expired} c1={idsStr h.listeners} c2={idsStr h.listeners} cb={cbStr cbs} {readersStr p c'}")
+      ({ h with cache := d.cache, browsers := bs', listeners := d.listeners },
+        s!"X u={pairsStr d.pairs} c1={idsStr d.round1} c2={idsStr d.round2} n={if d.notify then 1 else 0} cb={cbStr cbs} {readersStr p d.cache}")
   | .lAdd i => ({ h with listeners := setAdd h.listeners i }, s!"LA {idsStr (setAdd h.listeners i)}")
   | .lRem i =>
     match applyAct Gen.Cache.remove_listener_catches_keyerror h.listeners (.remove i) with
